@@ -102,12 +102,22 @@ def run(ctx):
             for c, r in zip(cs, ctx.batch(mode, [c["req"] for c in cs])):
                 c["wresp"] = r
         # listing once per group
-        lresp = ctx.call("sync@astd", {"op": "list", "cache": cache})
-        listed = {}
+        # the listing walks the whole index (up to 60 000 entries in the thorough tier): its deadline grows with the
+        # cache, and a listing that did not ANSWER is not an empty listing (that confusion produced 100 false
+        # "entry missing" reports in one thorough run on a machine running five other sweeps, see DESIGN section 11)
+        lresp = ctx.call("sync@astd", {"op": "list", "cache": cache}, timeout=60.0 + 0.02 * g)
+        listed = None
         if ev.is_ok(lresp):
+            listed = {}
             for e in lresp["ok"]["items"]:
                 if "err" not in e:
                     listed[e["key"]] = e
+        elif "err" in lresp or ev.is_panic(lresp):
+            ctx.violation(f"list|sync@astd|{ev.variant(lresp)}", f"list_sync over {g + len(group)} entries failed: {ev.brief(lresp)}",
+                          {"steps": [["sync@astd", {"op": "list", "cache": cache}]]})
+        else:
+            ctx.inconc(f"list_sync over {g + len(group)} entries did not answer in time ({ev.brief(lresp)}); the listing of this "
+                       f"group of {len(group)} entries was not judged")
         for mode, cs in by_mode.items():
             other = modes[(modes.index(mode) + 1) % len(modes)]
             reqs, owners = [], []
@@ -121,8 +131,9 @@ def run(ctx):
                 rs = ctx.batch(m, [reqs[i][1] for i in idx])
                 for i, r in zip(idx, rs):
                     judge(ctx, owners[i][0], owners[i][1], owners[i][2], r)
-            for c in cs:
-                judge_list(ctx, c, listed)
+            if listed is not None:
+                for c in cs:
+                    judge_list(ctx, c, listed)
     # ---- separately identified probe: metadata nested deeper than serde_json's default recursion limit
     for mode in modes:
         for depth in (127, 128, 200):
